@@ -1,6 +1,7 @@
 import Proofs.Distance
 import Proofs.DeepDistance
 import Proofs.DeepDistanceList
+import Proofs.DeepDistancePos
 /-!
 # C19 — pairing distances lie in `[0, max]` and are `0` only for equal values
 
@@ -128,6 +129,32 @@ theorem C19_deep_distance_positional_lists (cfg : DCfg) (hp : Diff.Plain cfg) (h
         (buildDelta true false (.list xs) (.list ys) (deepDiff cfg al hashOf (.list xs) (.list ys))).typeChanges.length ∧
     (deepDistance cfg al hashOf (.list xs) (.list ys)).2 = xs.length + ys.length + 2 :=
   list_deep_distance cfg hp hz al hashOf xs ys hbx hby
+
+/-- **positive when the diff is non-empty**, for nested dictionaries every part of which `_get_item_length` counts (`AllPos`: no `None`,
+no empty dictionary, no key with a leading underscore -- the inputs of findings F17a-c are exactly the ones this excludes): the
+numerator, hence the reported distance, is > 0 -/
+theorem C19_deep_distance_positive_nested_dicts (cfg : DCfg) (hp : Diff.Plain cfg) (al : Align) (hashOf : PyVal → String) (a b : PyVal)
+    (ja : J cfg.ignorePrivate a) (jb : J cfg.ignorePrivate b) (pa : AllPos a) (pb : AllPos b)
+    (hne : (deepDiff cfg al hashOf a b).tree ≠ []) :
+    0 < (deepDistance cfg al hashOf a b).1 := by
+  have hcats := (J_tree_facts hp al hashOf (sizeOf a) a b (Nat.le_refl _) ja jb).1
+  obtain ⟨h1, _⟩ := payloadLen_of_cats (diffV cfg al hashOf [] a b).tree a b hcats
+  rw [J_deepDiff hp al hashOf a b ja jb] at hne
+  unfold deepDistance
+  rw [J_deepDiff hp al hashOf a b ja jb, h1]
+  exact J_deep_pos hp al hashOf (sizeOf a) a b (Nat.le_refl _) ja jb pa pb hne
+
+/-- the positivity domain is inhabited by values of depth two -/
+example : AllPos (.dict [(.str "a", .int 1), (.str "b", .dict [(.str "x", .str "u")])]) := by
+  refine AllPos.dict (by simp) ?_ ?_
+  · intro p hp; simp at hp
+    rcases hp with rfl | rfl <;> simp [internalKey] <;> try decide
+  · intro p hp; simp at hp
+    rcases hp with rfl | rfl
+    · exact AllPos.leaf rfl (by simp)
+    · refine AllPos.dict (by simp) ?_ ?_
+      · intro q hq; simp at hq; subst hq; simp [internalKey]; try decide
+      · intro q hq; simp at hq; subst hq; exact AllPos.leaf rfl (by simp)
 
 /-- the property is **false** where the code is (finding F13a): `DeepDiff(1, '', get_deep_distance=True)` has numerator 3
 (two type objects and the new value) over denominator 2 -/
